@@ -600,20 +600,20 @@ def _rule_idx(ctx, view, floor_vars, floor_slots):
 
 
 def rule_idx_all(ctx):
-    return _rule_idx(ctx, None, 150, 450)
+    return _rule_idx(ctx, None, 130, 380)
 
 
 def rule_idx_c20(ctx):
-    return _rule_idx(ctx, "C20", 4, 450)
+    return _rule_idx(ctx, "C20", 4, 380)
 
 
 def rule_idx_c03(ctx):
-    return _rule_idx(ctx, "C03", 25, 450)
+    return _rule_idx(ctx, "C03", 25, 380)
 
 
 def rule_idx_c01(ctx):
-    return _rule_idx(ctx, "C01", 40, 450)
+    return _rule_idx(ctx, "C01", 40, 380)
 
 
 def rule_idx_c16(ctx):
-    return _rule_idx(ctx, "C16", 10, 450)
+    return _rule_idx(ctx, "C16", 10, 380)
